@@ -264,7 +264,11 @@ def run_case(ctx, rng, ci, names):
         except SystemExit:
             continue
         except Exception as e:
+            import traceback
+            if traceback.extract_tb(e.__traceback__)[-1].filename.startswith(os.path.dirname(os.path.dirname(os.path.abspath(__file__)))):
+                raise       # a defect of this harness, not of verif: must not pass silently
             ctx.note("api_table failed for %s: %r" % (argv, e))
+            ctx.count("api_table_failures")
             continue
         if len(rows) != len(api):
             ctx.violation("row-count|%s" % otype, "verif <files> %s: %d rows, the API gives %d slices" % (" ".join(argv), len(rows), len(api)), case)
@@ -337,7 +341,9 @@ def run_case(ctx, rng, ci, names):
 def obsfcst_table(ctx, rng, ci):
     """-m obsfcst as a table: columns obs + one per input, aggregated over the cases where both obs and fcst exist"""
     F = rng.choice([1, 2, 3])
-    ds = gen.make_dataset(rng, n_inputs=F, miss=rng.choice([0.0, 0.15]), sparse=0.0, max_t=4, max_l=4, max_s=3, vrange=(0, 14))
+    withq = rng.random() < 0.5
+    ds = gen.make_dataset(rng, n_inputs=F, miss=rng.choice([0.0, 0.15]), sparse=0.0, max_t=4, max_l=4, max_s=3, vrange=(0, 14),
+                          prob=withq, thresholds=[5.0] if withq else None, quantiles=[0.1, 0.5, 0.9] if withq else None)
     d = os.path.join(ctx.workdir, "of%d" % ci)
     os.makedirs(d, exist_ok=True)
     paths, _ = gen.materialize(ds, d, None)
@@ -345,7 +351,13 @@ def obsfcst_table(ctx, rng, ci):
     agg = rng.choice([None, "median", "max", "sum"])
     otype = rng.choice(["csv", "text"])
     acc = rng.random() < 0.2
-    argv = ["-m", "obsfcst", "-x", axis, "-type", otype] + (["-agg", agg] if agg else []) + (["-acc"] if acc else [])
+    qs = []
+    if withq:
+        # quantile columns: one per (quantile, file), quantile-major, named "<file> <level>%"
+        otype = "csv"
+        qs = rng.sample([0.1, 0.5, 0.9], rng.randint(1, 3))
+    argv = ["-m", "obsfcst", "-x", axis, "-type", otype] + (["-agg", agg] if agg else []) + (["-acc"] if acc else []) + \
+        (["-q", ",".join(gen.fnum(q) for q in qs)] if qs else [])
     o = runner.run_cli(paths + argv)
     case = {"ds": ds, "argv": argv}
     if o.status != "ok":
@@ -355,7 +367,7 @@ def obsfcst_table(ctx, rng, ci):
     header, rows = runner.parse_csv(o.stdout) if otype == "csv" else parse_text(o.stdout)
     ctx.count("tables")
     nd = 4 if axis in refmodel.LOC_AXES else 1
-    want_names = ["obs"] + [i["name"] for i in ds["inputs"]]
+    want_names = ["obs"] + [i["name"] for i in ds["inputs"]] + ["%s %g%%" % (i["name"], q * 100) for q in qs for i in ds["inputs"]]
     if [h.strip() for h in header][nd:] != want_names:
         ctx.violation("header|obsfcst", "header %s, documented ... %s" % (header, want_names), case)
         return
@@ -366,6 +378,11 @@ def obsfcst_table(ctx, rng, ci):
     for k in range(F):
         sl = refmodel.slices(ds, k, fields, axis)
         cols.append([refmetrics.aggregate(agg or "mean", [c[1] for c in cs]) if cs else NAN for lab, cs in sl])
+    for q in qs:
+        for k in range(F):
+            sl = refmodel.slices(ds, k, [("q", q), ("obs",)], axis)
+            cols.append([refmetrics.aggregate(agg or "mean", [c[0] for c in cs]) if cs else NAN for lab, cs in sl])
+            ctx.count("obsfcst_quantile_columns")
     if acc:
         for col in cols:
             run = 0.0
@@ -386,7 +403,7 @@ def obsfcst_table(ctx, rng, ci):
                 ctx.violation("printed-number-differs|obsfcst|%s" % otype, "verif <files> %s row %d column %s: printed %s, defining %r"
                               % (" ".join(argv), i, want_names[j], txt, w), case)
                 return
-    ctx.case("obsfcst|%s|%s|acc%d|F%d" % (axis, otype, acc, F), len(rows) >= 2, {"argv": argv})
+    ctx.case("obsfcst|%s|%s|acc%d|F%d|q%d" % (axis, otype, acc, F, len(qs)), len(rows) >= 2, {"argv": argv})
 
 
 def run_shard(desc, ctx):
